@@ -407,11 +407,19 @@ CHECKS = {
         extra_consts={"CheckMem": "TRUE"}),
     "C20": Composite([
         SeqCheck(
-            drivers={"quick": [["-family", "multidb", "-n", "600", "-len", "40"]],
-                     "thorough": [["-family", "multidb", "-n", "5000", "-len", "60"]]},
+            drivers={"quick": [["-family", "multidb", "-n", "450", "-len", "40"], ["-family", "multidb-swap", "-n", "150", "-len", "40"]],
+                     "thorough": [["-family", "multidb", "-n", "4000", "-len", "60"], ["-family", "multidb-swap", "-n", "1500", "-len", "60"]]},
             mc={"module": "MC_Store", "consts": mc_store(2, 3),
                 "invariants": ["TypeOK"], "properties": ["Isolation", "FlushAllEmpties", "FlushDbOnlyOwn"]},
             level_text="", assumptions=KV_ASSUME),
+        # SELECT is per connection, SWAPDB is for everybody: three connections served by the real handler
+        TraceModelCheck(
+            jobs={"quick": [["conns", "-n", "60", "-len", "40"]], "thorough": [["conns", "-n", "800", "-len", "60"]]},
+            trace_spec="Trace_Conns", models={"quick": [], "thorough": []},
+            rule="one event = one command (SELECT, SWAPDB, a generic/string command, FLUSHDB/FLUSHALL) or a reconnect on one of three "
+                 "connections served by the real connection handler; the whole dataset of every database is recorded after each; "
+                 "Trace_Conns.tla keeps the database each connection selected and judges every command by Exec in that database",
+            assumptions=TRUSTED, count_keys=("histories", "commands", "select", "swap", "newconn", "data"), deviation_consts=True),
         # placement must survive the append-only log, its rewrite and snapshots: databases 0, 1 and 10
         PersistCheck(
             jobs={"quick": [["-mode", "aof", "-sync", "always", "-n", "8", "-len", "12", "-cuts", "none"],
@@ -461,7 +469,7 @@ ENGINES.append(
                        "blocking hooks at the keyspace critical sections; exclusion probes and a stress driver complete it"})
 
 ENGINES.append(
-    {"name": "trace-model", "path": "/verif/vlib/tracecheck.py", "serves_properties": ["C06", "C11", "C12", "C18", "C08", "C07"],
+    {"name": "trace-model", "path": "/verif/vlib/tracecheck.py", "serves_properties": ["C06", "C11", "C12", "C18", "C08", "C07", "C20"],
      "kind_free_text": "a Go driver records histories from the real server (connections served by the real handler over net.Pipe, "
                        "eviction, FSM); TLC validates them against the property's trace spec and model-checks its bounded model"})
 
@@ -688,9 +696,11 @@ META = {
                      "DESIGN.md §5 C19",
                      "Eviction-driven changes are exercised under C08. Open finding MemInPlace covers in-place set/sorted-set edits."),
     "C20": _seq_meta("Isolation, FlushAllEmpties, FlushDbOnlyOwn",
-                     "Trace_Sugar.tla over programs that switch the embedded caller between databases 0, 1 and 10 with the "
-                     "state of all databases compared after every step",
-                     "DESIGN.md §5 C20",
-                     "TCP connections / SWAPDB and persistence of placement are covered by the connection and persistence checks "
-                     "as they are added."),
+                     "Trace_Sugar.tla over programs that switch the embedded caller between databases 0, 1 and 10 (SelectDB, SWAPDB) "
+                     "with the state of all databases compared after every step; Trace_Conns.tla over histories of SELECT / SWAPDB / "
+                     "data commands / flushes / reconnects on three connections served by the real handler (the model keeps the "
+                     "database every connection selected); Trace_Persist.tla over AOF, rewrite and snapshot images of workloads in "
+                     "databases 0, 1 and 10",
+                     "DESIGN.md §12.2 C20",
+                     "Open finding SwapDbConnsOnly: SWAPDB renumbers connections instead of exchanging the databases."),
 }
